@@ -84,6 +84,15 @@ Proof. intro H. dinv H. constructor; ssh; assumption. Qed.
 Lemma clean_set_scripts l s : Clean s -> Clean (set_scripts l s).
 Proof. intros [C1 C2 C3 C4]. constructor; assumption. Qed.
 
+Lemma dinv_set_refs sc cl r s : Dinv sc cl s -> Dinv sc cl (set_refs r s).
+Proof. intro H. dinv H. constructor; ssh; assumption. Qed.
+Lemma clean_set_refs r s : Clean s -> Clean (set_refs r s).
+Proof. intros [C1 C2 C3 C4]. constructor; assumption. Qed.
+Lemma dinv_set_gvars sc cl r s : Dinv sc cl s -> Dinv sc cl (set_gvars r s).
+Proof. intro H. dinv H. constructor; ssh; assumption. Qed.
+Lemma clean_set_gvars r s : Clean s -> Clean (set_gvars r s).
+Proof. intros [C1 C2 C3 C4]. constructor; assumption. Qed.
+
 (* Reset on ANY such state - threads running, waiting, in the middle of a call *)
 Theorem reset_ok sc cl s :
   Dinv sc cl s -> Clean s ->
@@ -97,7 +106,7 @@ Proof.
   destruct (free_all_ok sc cl (S (length (cpool s))) s H C ltac:(lia)) as (R1 & R2 & R3 & R4).
   set (s1 := free_all (S (length (cpool s))) s) in *.
   destruct (empty_means_empty sc cl s1 R1 R2 R3) as (Q1 & Q2 & Q3 & Q4 & Q5).
-  split; [now apply dinv_set_scripts|]. split; [now apply clean_set_scripts|].
+  split; [now apply dinv_set_scripts, dinv_set_refs, dinv_set_gvars|]. split; [now apply clean_set_scripts, clean_set_refs, clean_set_gvars|].
   split; [exact R3|]. split; [exact Q1|]. split; [exact Q2|]. split; [exact Q3|]. split; [reflexivity|]. split; [exact Q4|].
   split; [exact Q5|exact R4].
 Qed.
